@@ -33,22 +33,25 @@ Lemma programs_explicit :
                                  KSave SLock; KSave SSnap; KSave SWrite; KSave SUnlock; KRUnlock]) /\
   (forall k, prog_push k false = [KRLock; KCreate k; KRUnlock]) /\
   (forall k, prog_delete k = [KWLock; KRegDelete k; KSave SLock; KSave SSnap; KSave SWrite; KSave SUnlock;
-                              KRemove k; KWUnlock]).
+                              KRemove k; KWUnlock]) /\
+  (forall g, prog_gc g = [KWLock; KRegGC g; KSave SLock; KSave SSnap; KSave SWrite; KSave SUnlock;
+                          KSweep g; KWUnlock]).
 Proof. repeat split; intros; vm_compute; reflexivity. Qed.
 
 (* ... and they respect the lock discipline *)
 Lemma programs_checked :
   (forall d t, check ts0 (prog_tag d t) = true) /\ (forall t, check ts0 (prog_untag t) = true) /\
   check ts0 prog_saveindex = true /\ (forall k m, check ts0 (prog_push k m) = true) /\
-  (forall k, check ts0 (prog_delete k) = true).
+  (forall k, check ts0 (prog_delete k) = true) /\ (forall g, check ts0 (prog_gc g) = true).
 Proof.
-  destruct programs_explicit as (A & B & C & D & E & F).
-  split; [|split; [|split; [|split]]].
+  destruct programs_explicit as (A & B & C & D & E & F & G).
+  split; [|split; [|split; [|split; [|split]]]].
   - intros d t. rewrite A. simpl. now rewrite Nat.eqb_refl.
   - intros t. now rewrite B.
   - now rewrite C.
   - intros k m. destruct m; [rewrite D|rewrite E]; simpl; now rewrite ?Nat.eqb_refl.
   - intros k. rewrite F. simpl. now rewrite Nat.eqb_refl.
+  - intros g. rewrite G. simpl. now rewrite Nat.eqb_refl.
 Qed.
 
 Lemma nodup_filter_keys (f : ref * desc -> bool) m : NoDup (map fst m) -> NoDup (map fst (filter f m)).
@@ -89,6 +92,24 @@ Proof.
     pose proof (ix_j2 _ I _ _ L1) as E1. unfold f in *. simpl in *. rewrite E1, F. congruence.
 Qed.
 
+Lemma ixinv_node_filter (keep : nat -> bool) ix : IxInv ix -> IxInv (gc_refs keep ix).
+Proof.
+  intro I. unfold gc_refs.
+  set (f := fun kv : ref * desc => keep (d_node (snd kv))).
+  assert (ND : NoDup (map fst ix)) by apply I.
+  split.
+  - now apply nodup_filter_keys.
+  - intros k' d H. rewrite (lookup_filter f ix _ ND) in H.
+    destruct (lookup (RDig k') ix) as [d0|] eqn:L; [|discriminate].
+    destruct (f (RDig k', d0)); [|discriminate]. injection H as <-. now apply (ix_j2 _ I).
+  - intros t d H. rewrite (lookup_filter f ix _ ND) in H.
+    destruct (lookup (RTag t) ix) as [d0|] eqn:L; [|discriminate].
+    destruct (f (RTag t, d0)) eqn:F; [|discriminate]. injection H as <-.
+    pose proof (ix_j1 _ I _ _ L) as X. rewrite (lookup_filter f ix _ ND).
+    destruct (lookup (RDig (d_node d0)) ix) as [d1|] eqn:L1; [|congruence].
+    pose proof (ix_j2 _ I _ _ L1) as E1. unfold f in *. simpl in *. rewrite E1, F. congruence.
+Qed.
+
 Section Inv.
   Notation md s j := (ts_mode (l_ts (ll_ths s j))).
   Notation hold s j := (ts_hold (l_ts (ll_ths s j))).
@@ -97,11 +118,14 @@ Section Inv.
   Notation ver s j := (ts_ver (l_ts (ll_ths s j))).
   Notation clr s j := (ts_clr (l_ts (ll_ths s j))).
   Notation dig s j := (ts_dig (l_ts (ll_ths s j))).
+  Notation gcs s j := (ts_gc (l_ts (ll_ths s j))).
 
   Definition some_dirty (s : lstate) : Prop := exists j, j < ll_n s /\ dirty s j = true.
   Definition current (s : lstate) : Prop := exists c, ll_disk s = save_index (fst c) (snd c) (ll_live s).
 
   Record LInv (s : lstate) : Prop := {
+    l_gc : forall i g, i < ll_n s -> In g (gcs s i) ->
+           md s i = MExcl /\ forall r d, In (r, d) (ll_live s) -> ll_keep s g (d_node d) = true;
     l_il : forall j, ll_ilock s = Some j -> j < ll_n s;
     l_ix : IxInv (ll_live s);
     l_dig : forall i k, i < ll_n s -> In k (dig s i) -> l_ok (ll_ths s i) = true -> lookup (RDig k) (ll_live s) <> None;
@@ -122,6 +146,7 @@ Section Inv.
   Lemma linv_init s : l_init s -> IxInv (ll_live s) -> LInv s.
   Proof.
     intros (Hd & Hr & Hl & Ht) Hix. split.
+    - intros i g Hi X. destruct (Ht i Hi) as (A & _). rewrite A in X. destruct X.
     - intros j E. congruence.
     - exact Hix.
     - intros i k Hi X. destruct (Ht i Hi) as (A & _). rewrite A in X. destruct X.
@@ -164,12 +189,13 @@ Section Inv.
     (* who holds indexLock / is snapped *)
     assert (HoldU : forall j, j < ll_n s -> hold s i = true -> hold s j = true -> j = i).
     { intros j Hj Hi Hh. apply (l_hold s I i Li) in Hi. apply (l_hold s I j Hj) in Hh. congruence. }
-    destruct st as [ | | | |k|k|r|k|sv|k].
+    destruct st as [ | | | |k|k|r|k|sv|k|g0|g0].
     - (* KRLock *)
       destruct (others s i _) eqn:G; [|discriminate]. injection H as <-.
       pose proof (others_spec s i _ G) as NoX. simpl in Ok. apply lmode_eqb_eq in Ok.
       destruct (l_none s I i Li Ok) as (Nh & Nd & Ns & Nv & Nc). fold t a in Nh, Nd, Ns, Nv, Nc.
       split; simpl.
+      + intros j g Hj. dj j i; simpl; [tauto|now apply (l_gc s I)].
       + intros j0 E0. now apply (l_il s I).
       + apply (l_ix s I).
       + intros j k' Hj. dj j i; simpl; [tauto|now apply (l_dig s I)].
@@ -196,6 +222,7 @@ Section Inv.
       apply andb_true_iff in Ok as [Ok Od]. apply andb_true_iff in Ok as [Ok Os]. apply andb_true_iff in Ok as [Om Oh].
       apply negb_true_iff in Od, Os, Oh. apply lmode_eqb_eq in Om.
       split; simpl.
+      + intros j g Hj. dj j i; simpl; [tauto|now apply (l_gc s I)].
       + intros j0 E0. now apply (l_il s I).
       + apply (l_ix s I).
       + intros j k' Hj. dj j i; simpl; [tauto|now apply (l_dig s I)].
@@ -220,6 +247,7 @@ Section Inv.
       pose proof (others_spec s i _ G) as NoX. simpl in Ok. apply lmode_eqb_eq in Ok.
       destruct (l_none s I i Li Ok) as (Nh & Nd & Ns & Nv & Nc). fold t a in Nh, Nd, Ns, Nv, Nc.
       split; simpl.
+      + intros j g Hj. dj j i; simpl; [tauto|now apply (l_gc s I)].
       + intros j0 E0. now apply (l_il s I).
       + apply (l_ix s I).
       + intros j k' Hj. dj j i; simpl; [tauto|now apply (l_dig s I)].
@@ -247,6 +275,7 @@ Section Inv.
       apply andb_true_iff in Ok as [Ok Od]. apply andb_true_iff in Ok as [Ok Os]. apply andb_true_iff in Ok as [Om Oh].
       apply negb_true_iff in Od, Os, Oh. apply lmode_eqb_eq in Om.
       split; simpl.
+      + intros j g Hj. dj j i; simpl; [tauto|now apply (l_gc s I)].
       + intros j0 E0. now apply (l_il s I).
       + apply (l_ix s I).
       + intros j k' Hj. dj j i; simpl; [tauto|now apply (l_dig s I)].
@@ -269,6 +298,7 @@ Section Inv.
     - (* KExists *)
       injection H as <-. simpl in Ok. apply negb_true_iff in Ok. apply lmode_neqb in Ok.
       split; simpl.
+      + intros j g Hj. dj j i; simpl; now apply (l_gc s I).
       + intros j0 E0. now apply (l_il s I).
       + apply (l_ix s I).
       + intros j k' Hj. dj j i; simpl; [|now apply (l_dig s I)].
@@ -291,6 +321,7 @@ Section Inv.
     - (* KCreate *)
       injection H as <-. simpl in Ok. apply negb_true_iff in Ok. apply lmode_neqb in Ok.
       split; simpl.
+      + intros j g Hj. dj j i; simpl; now apply (l_gc s I).
       + intros j0 E0. now apply (l_il s I).
       + apply (l_ix s I).
       + intros j k' Hj. dj j i; simpl; now apply (l_dig s I).
@@ -311,7 +342,7 @@ Section Inv.
       + intros r' d' X. apply In_add. right. now apply (l_refs s I r' d').
       + intros j k' Hj. dj j i; simpl; now apply (l_clr s I).
     - (* KReg *)
-      injection H as <-. simpl in Ok. apply andb_true_iff in Ok as [Ok Og]. apply andb_true_iff in Ok as [Om Ov].
+      injection H as <-. simpl in Ok. apply andb_true_iff in Ok as [Ok Ogc]. apply andb_true_iff in Ok as [Ok Og]. apply andb_true_iff in Ok as [Om Ov].
       apply negb_true_iff in Om. apply lmode_neqb in Om.
       assert (NoClr : forall j, j < ll_n s -> j <> i -> clr s j = []).
       { intros j Hj Hji. destruct (md s j) eqn:E.
@@ -319,9 +350,13 @@ Section Inv.
         - now apply (l_shared s I j Hj E).
         - exfalso. apply Om. fold a. apply (l_excl s I j i Hj Li E). congruence. }
       assert (SD : some_dirty (mkLS (if l_ok t then reg_fun r (ll_live s) else ll_live s) (ll_disk s) (ll_blobs s)
-                                    (ll_ilock s) (ll_n s) (lupd (ll_ths s) i (mkLT p (tnext a (KReg r)) (l_snap t) (l_ok t))))).
+                                    (ll_ilock s) (ll_n s) (lupd (ll_ths s) i (mkLT p (tnext a (KReg r)) (l_snap t) (l_ok t))) (ll_keep s))).
       { exists i. split; auto. simpl. now rewrite lupd_same. }
       split; simpl.
+      + intros j g Hj. dj j i; simpl.
+        * intros X. fold t a in X. destruct (ts_gc a); [destruct X|discriminate Ogc].
+        * intros X. exfalso. destruct (l_gc s I j g Hj X) as [E _]. apply Om. fold a.
+          apply (l_excl s I j i Hj Li E). congruence.
       + intros j0 E0. now apply (l_il s I).
       + destruct (l_ok t) eqn:Okt; [|apply (l_ix s I)].
         destruct r as [d|tg d|tg]; simpl.
@@ -368,12 +403,16 @@ Section Inv.
     - (* KRegDelete *)
       injection H as <-. simpl in Ok. apply lmode_eqb_eq in Ok.
       assert (SD : some_dirty (mkLS (delete_refs k (ll_live s)) (ll_disk s) (ll_blobs s)
-                                    (ll_ilock s) (ll_n s) (lupd (ll_ths s) i (mkLT p (tnext a (KRegDelete k)) (l_snap t) (l_ok t))))).
+                                    (ll_ilock s) (ll_n s) (lupd (ll_ths s) i (mkLT p (tnext a (KRegDelete k)) (l_snap t) (l_ok t))) (ll_keep s))).
       { exists i. split; auto. simpl. now rewrite lupd_same. }
       assert (Sub : forall r' d', In (r', d') (delete_refs k (ll_live s)) -> In (r', d') (ll_live s) /\ d_node d' <> k).
       { intros r' d' X. unfold delete_refs in X. apply filter_In in X as [X Y]. split; auto.
         simpl in Y. apply negb_true_iff in Y. now apply Nat.eqb_neq in Y. }
       split; simpl.
+      + intros j g Hj. dj j i; simpl.
+        * intros X. destruct (l_gc s I i g Li X) as [M K]. split; auto. intros r' d' Y. apply Sub in Y as [Y _]. now apply (K r' d').
+        * intros X. exfalso. destruct (l_gc s I j g Hj X) as [E _].
+          assert (Z : md s i = MNone) by (apply (l_excl s I j i Hj Li E); congruence). fold t a in Z. congruence.
       + intros j0 E0. now apply (l_il s I).
       + apply ixinv_delete_refs, (l_ix s I).
       + intros j k' Hj. dj j i; simpl; [tauto|].
@@ -398,6 +437,7 @@ Section Inv.
         destruct (ll_ilock s) eqn:Il; [discriminate|]. injection H as <-. simpl in Ok.
         apply andb_true_iff in Ok as [Om Oh]. apply negb_true_iff in Om, Oh. apply lmode_neqb in Om.
         split; simpl.
+        * intros j g Hj. dj j i; simpl; now apply (l_gc s I).
         * intros j0 E0. injection E0 as <-. exact Li.
         * apply (l_ix s I).
         * intros j k' Hj. dj j i; simpl; now apply (l_dig s I).
@@ -421,6 +461,7 @@ Section Inv.
       + (* SSnap *)
         injection H as <-. simpl in Ok.
         split; simpl.
+        * intros j g Hj. dj j i; simpl; now apply (l_gc s I).
         * intros j0 E0. now apply (l_il s I).
         * apply (l_ix s I).
         * intros j k' Hj. dj j i; simpl; now apply (l_dig s I).
@@ -441,6 +482,7 @@ Section Inv.
         injection H as <-. simpl in Ok. apply andb_true_iff in Ok as [Oh Os].
         destruct (l_snapped s I i Li Os) as (_ & v & Sv & Cur). fold t in Sv. rewrite Sv.
         split; simpl.
+        * intros j g Hj. dj j i; simpl; now apply (l_gc s I).
         * intros j0 E0. now apply (l_il s I).
         * apply (l_ix s I).
         * intros j k' Hj. dj j i; simpl; now apply (l_dig s I).
@@ -461,6 +503,7 @@ Section Inv.
       + (* SUnlock *)
         injection H as <-. simpl in Ok. apply andb_true_iff in Ok as [Oh Os]. apply negb_true_iff in Os.
         split; simpl.
+        * intros j g Hj. dj j i; simpl; now apply (l_gc s I).
         * intros j0 E0. discriminate.
         * apply (l_ix s I).
         * intros j k' Hj. dj j i; simpl; now apply (l_dig s I).
@@ -485,6 +528,7 @@ Section Inv.
       apply andb_true_iff in Ok as [Ok Od]. apply andb_true_iff in Ok as [Ok Os]. apply andb_true_iff in Ok as [Ok Oh].
       apply andb_true_iff in Ok as [Om Oc]. apply lmode_eqb_eq in Om. apply mem_In in Oc.
       split; simpl.
+      + intros j g Hj. dj j i; simpl; now apply (l_gc s I).
       + intros j0 E0. now apply (l_il s I).
       + apply (l_ix s I).
       + intros j k' Hj. dj j i; simpl; now apply (l_dig s I).
@@ -504,6 +548,65 @@ Section Inv.
         destruct (l_none s I j Hj E) as (_ & _ & _ & V & _). rewrite V in X. destruct X.
       + intros r' d' X. apply In_del. split; [|now apply (l_refs s I r' d')].
         apply (l_clr s I i k Li Oc r' d' X).
+      + intros j k' Hj. dj j i; simpl; now apply (l_clr s I).
+    - (* KRegGC *)
+      injection H as <-. simpl in Ok. apply lmode_eqb_eq in Ok.
+      assert (SD : some_dirty (mkLS (gc_refs (ll_keep s g0) (ll_live s)) (ll_disk s) (ll_blobs s)
+                                    (ll_ilock s) (ll_n s) (lupd (ll_ths s) i (mkLT p (tnext a (KRegGC g0)) (l_snap t) (l_ok t))) (ll_keep s))).
+      { exists i. split; auto. simpl. now rewrite lupd_same. }
+      assert (Sub : forall r' d', In (r', d') (gc_refs (ll_keep s g0) (ll_live s)) ->
+                    In (r', d') (ll_live s) /\ ll_keep s g0 (d_node d') = true).
+      { intros r' d' X. unfold gc_refs in X. now apply filter_In in X. }
+      split; simpl.
+      + intros j g Hj. dj j i; simpl.
+        * intros [<-|X].
+          -- split; auto. intros r' d' Y. now apply Sub in Y.
+          -- destruct (l_gc s I i g Li X) as [M K]. split; auto. intros r' d' Y. apply Sub in Y as [Y _]. now apply (K r' d').
+        * intros X. exfalso. destruct (l_gc s I j g Hj X) as [E _].
+          assert (Z : md s i = MNone) by (apply (l_excl s I j i Hj Li E); congruence). fold t a in Z. congruence.
+      + intros j0 E0. now apply (l_il s I).
+      + apply ixinv_node_filter, (l_ix s I).
+      + intros j k' Hj. dj j i; simpl; [tauto|].
+        intros X. exfalso. assert (E : md s j = MNone) by (apply (l_excl s I i j Li Hj); auto).
+        destruct (l_none s I j Hj E) as (_ & _ & _ & _ & _ & G). rewrite G in X. destruct X.
+      + intros j Hj. dj j i; simpl; auto. now apply (l_chk s I).
+      + intros j Hj. dj j i; simpl; [apply (l_hold s I i Li)|now apply (l_hold s I)].
+      + intros x y Hx Hy. dj x i; dj y i; simpl; try congruence; now apply (l_excl s I).
+      + intros j Hj. dj j i; simpl; [intro E; fold a in Ok; congruence|now apply (l_none s I)].
+      + intros j Hj. dj j i; simpl; [intro E; fold a in Ok; congruence|now apply (l_shared s I)].
+      + intros j Hj. dj j i; simpl; intro E; destruct (l_snapped s I _ ltac:(eassumption) E) as (A & v & B & _);
+          split; auto; exists v; split; auto.
+      + intros _. now right.
+      + intros j k' Hj. dj j i; simpl; now apply (l_ver s I).
+      + intros r' d' X. apply Sub in X as [X _]. now apply (l_refs s I r' d').
+      + intros j k' Hj. dj j i; simpl; intros Ik r' d' X; apply Sub in X as [X _].
+        * now apply (l_clr s I i k' Li Ik r' d').
+        * now apply (l_clr s I j k' Hj Ik r' d').
+    - (* KSweep *)
+      injection H as <-. simpl in Ok.
+      apply andb_true_iff in Ok as [Ok Od]. apply andb_true_iff in Ok as [Ok Os]. apply andb_true_iff in Ok as [Ok Oh].
+      apply andb_true_iff in Ok as [Om Oc]. apply lmode_eqb_eq in Om. apply mem_In in Oc.
+      destruct (l_gc s I i g0 Li Oc) as [_ Kept].
+      split; simpl.
+      + intros j g Hj. dj j i; simpl; now apply (l_gc s I).
+      + intros j0 E0. now apply (l_il s I).
+      + apply (l_ix s I).
+      + intros j k' Hj. dj j i; simpl; now apply (l_dig s I).
+      + intros j Hj. dj j i; simpl; auto. now apply (l_chk s I).
+      + intros j Hj. dj j i; simpl; [apply (l_hold s I i Li)|now apply (l_hold s I)].
+      + intros x y Hx Hy. dj x i; dj y i; simpl; try congruence; now apply (l_excl s I).
+      + intros j Hj. dj j i; simpl; [intro E; fold a in Om; congruence|now apply (l_none s I)].
+      + intros j Hj. dj j i; simpl; [intro E; fold a in Om; congruence|now apply (l_shared s I)].
+      + intros j Hj. dj j i; simpl; intro E; destruct (l_snapped s I _ ltac:(eassumption) E) as (A & v & B & [C|C]);
+          split; auto; exists v; split; auto; right; apply (some_dirty_mono s); auto; intros y Hy; simpl; dj y i; auto.
+      + intros Hn. destruct (l_disk s I) as [X|X].
+        * intros j Hj. specialize (Hn j Hj). dj j i; auto.
+        * now left.
+        * right. apply (some_dirty_mono s); auto. intros y Hy. simpl. dj y i; auto.
+      + intros j k' Hj. dj j i; simpl; [tauto|].
+        intros X. exfalso. assert (E : md s j = MNone) by (apply (l_excl s I i j Li Hj); auto).
+        destruct (l_none s I j Hj E) as (_ & _ & _ & V & _). rewrite V in X. destruct X.
+      + intros r' d' X. apply filter_In. split; [now apply (l_refs s I r' d')|now apply (Kept r' d')].
       + intros j k' Hj. dj j i; simpl; now apply (l_clr s I).
   Qed.
 
@@ -550,7 +653,7 @@ Definition ts_wf (a : tstate) : Prop := ts_mode a = MNone -> a = ts0.
 
 Lemma ts_wf_step a st : ts_wf a -> tstep_ok a st = true -> ts_wf (tnext a st).
 Proof.
-  intros W Ok M. destruct a as [m h sn di v c]. destruct st as [ | | | |k|k|r|k|sv|k]; simpl in *;
+  intros W Ok M. destruct a as [m h sn di v c dg gg]. destruct st as [ | | | |k|k|r|k|sv|k|g0|g0]; simpl in *;
     try discriminate; try (destruct sv; simpl in *);
     repeat match goal with H : _ && _ = true |- _ => apply andb_true_iff in H as [? ?] end;
     repeat match goal with H : negb _ = true |- _ => apply negb_true_iff in H end;
@@ -570,9 +673,9 @@ Qed.
 
 Lemma lops_checked ops : check ts0 (prog_of_lops ops) = true.
 Proof.
-  destruct programs_checked as (A & B & C & D & E).
+  destruct programs_checked as (A & B & C & D & E & F).
   induction ops as [|o ops IH]; [reflexivity|]. cbn [prog_of_lops flat_map]. fold (prog_of_lops ops).
-  apply check_app; [intros _; reflexivity | destruct o; cbn [prog_of_lop]; [apply A|apply B|exact C|apply D|apply E] | exact IH].
+  apply check_app; [intros _; reflexivity | destruct o; cbn [prog_of_lop]; [apply A|apply B|exact C|apply D|apply E|apply F] | exact IH].
 Qed.
 
 (* any number of threads, each running any list of Tag / Untag / SaveIndex / Push / Delete calls
@@ -621,7 +724,7 @@ Definition exl_s0 : lstate :=
               | 0 => mkLT [KExists 0; KRLock; KReg (RegDig (plain 0)); KReg (RegTag 5 (plain 0));
                            KSave SLock; KSave SSnap; KSave SWrite; KSave SUnlock; KRUnlock] ts0 None true
               | _ => mkLT (prog_delete 0) ts0 None true
-              end).
+              end) (fun _ _ => true).
 Lemma unlocked_exists_refuted :
   let s := l_run (map (fun i => (i, ([], []))) [0; 1; 1; 1; 1; 1; 1; 1; 1; 0; 0; 0; 0; 0; 0; 0; 0]) exl_s0 in
   l_quiescent s /\ ll_blobs s = [] /\ lookup (RTag 5) (ll_live s) = Some (plain 0) /\
